@@ -172,7 +172,7 @@ impl Peer {
         challenge: HandshakeChallenge,
         io_handler: &(dyn InterfaceIO + Send + Sync),
         wallet_lock: Arc<RwLock<Wallet>>,
-        configs_lock: Arc<RwLock<dyn Configuration + Send + Sync>>,
+        configs: &(dyn Configuration + Send + Sync),
     ) -> Result<(), Error> {
         debug!(
             "handling handshake challenge : {:?} for peer : {:?}",
@@ -182,8 +182,6 @@ impl Peer {
         let block_fetch_url;
         let is_lite;
         {
-            let configs = configs_lock.read().await;
-
             is_lite = configs.is_spv_mode();
             if is_lite {
                 block_fetch_url = "".to_string();
@@ -225,7 +223,7 @@ impl Peer {
         response: HandshakeResponse,
         io_handler: &(dyn InterfaceIO + Send + Sync),
         wallet_lock: Arc<RwLock<Wallet>>,
-        configs_lock: Arc<RwLock<dyn Configuration + Send + Sync>>,
+        configs: &(dyn Configuration + Send + Sync),
         current_time: Timestamp,
     ) -> Result<(), Error> {
         debug!(
@@ -270,8 +268,6 @@ impl Peer {
         let block_fetch_url;
         let is_lite;
         {
-            let configs = configs_lock.read().await;
-
             is_lite = configs.is_spv_mode();
             if is_lite {
                 block_fetch_url = "".to_string();
